@@ -67,7 +67,7 @@ def run(prog, rep):
         for i, (b, t) in enumerate(calls):
             n += 1
             chain = with_context_chain(prog, body, tr, b)
-            has_stmt_ctx = any(c and re.match(r"^Into::into\((Clone::clone\(&\*)?upvar:(_ref__)?\w+\.error_context\)?\)$", c) for c in chain)
+            has_stmt_ctx = any(c and re.match(r"^Into::into\((Clone::clone\(&\*+)?upvar:(_ref__)?\w+\.error_context\)?\)$", c) for c in chain)
             key = "%s :: statement execution #%d" % (f.id, i)
             if required:
                 rep.check(has_stmt_ctx, "E2.x-a", key, sp_str(t["sp"]), "wrapped with error_context (%d context layer(s))" % len(chain),
